@@ -25,6 +25,7 @@ NPAR = max(2, min(16, vlib.NCPU))
 _Q = [
     ("mac1", "CPP_mc.cfg", 6, None, None),       # 1 macro of every kind, list <= 3, balanced invocation <= 6: exhaustive
     ("mac2", "CPP_mc2.cfg", 4, None, None),      # 2 macros (object-like / 1 parameter), lists <= 2, any text <= 3: exhaustive
+    ("mac2b", "CPP_mc2b.cfg", 2, None, None),    # 2 macros, lists <= 2 over {x,f,g,(}, balanced text <= 4 (f ( g ) ...): exhaustive
     ("macstr", "CPP_str_mc.cfg", 2, None, None), # stringification with literals and variable spacing: exhaustive
     ("macsim", "CPP_sim.cfg", 2, 2500, 60),      # 2 macros, lists <= 4, text <= 6: random walks
     ("cond", "CPP_cond_mc.cfg", 1, None, None),  # conditional nestings, 5 directive lines, depth 3: exhaustive
